@@ -9,6 +9,7 @@ import AsphaltModel
 import DriverLib.Ctx
 import DriverLib.Sig
 import DriverLib.Start
+import DriverLib.Tasks
 
 open Lean Asphalt
 
@@ -154,6 +155,7 @@ def dispatch (j : Json) : Except String Json := do
   | "ctx" => runCtx j
   | "sig" => runSig j
   | "startup" => runStartup j
+  | "tasks" => runTasks j
   | _ => throw s!"unknown kind {kind}"
 
 end Drv
